@@ -10,6 +10,11 @@ chk("C20", "exploration",
     "DESIGN.md section 4, C20")
 chk("C03", "exploration",
     "Each of the eleven codecs encodes and decodes generated values inside an ASan+UBSan+libstdc++-assertions build; the decoded value is compared with the original bit-for-bit, values the format cannot hold must be rejected by the encoder, and any sanitizer report, crash or non-std exception is a violation. Boundary ladders: label 0..300, 0..12 entries, 0/1/2/32768/32769/40000 markers, 0..100000 points.",
-    "Values are compared as JSON documents carrying doubles as bit patterns; std::bad_alloc above a 256 MiB single allocation is accepted as rejection; sanitizers see only what the workload reaches.",
+    "Values are compared as JSON documents carrying doubles as bit patterns; std::bad_alloc above a 128 MiB single allocation is accepted as rejection; sanitizers see only what the workload reaches.",
     "sanitizer-instrumented execution of encode/decode round trips with an equality oracle on generated and boundary values",
     "DESIGN.md section 4, C03")
+chk("C05", "exploration",
+    "zlib_uncompress and the eleven decoders are fed ~2 million byte strings per quick run inside an ASan+UBSan+libstdc++-assertions build (exhaustive 0-2 byte inputs raw and as payloads behind a harness-built container, 16-value-alphabet enumerations, every truncation / single-byte substitution / insertion-deletion of valid blobs at container and payload level, ladders on every count field and on the length prefix, 64 KiB inputs, and a 16-job libFuzzer stage over the codec units). Monitors: sanitizer reports, an interposed inflate() that checks the input window against live memory and enforces a 100000-call termination budget, non-std exceptions at the call boundary, process deaths attributed to the exact input via a shared-memory witness.",
+    "Red-zone sanitizers miss non-adjacent overflows; inputs live in exactly-sized heap blocks; std::bad_alloc above a 128 MiB single allocation is a legal outcome; clang/libFuzzer sees only the codec translation units.",
+    "sanitizer-instrumented execution with interposed zlib monitor over enumerated, systematically mutated and coverage-guided inputs",
+    "DESIGN.md section 4, C05")
